@@ -157,3 +157,67 @@ class ThreadsafeMakeDag:
         if case == "normal":
             C.check(z3.BoolVal(r == "THE_DAG"), "threadsafe_make_dag.post.returns_the_built_dag", {"C01"}, "post")
         return "return"
+
+
+class WrapMakeDag:
+    """wrap_make_dag: the three build globals are fresh and empty when the description starts and are replaced by fresh
+    empty ones on EVERY exit path, so that a DAG owns its tables and nothing leaks into the next build"""
+
+    module = "tawazi._dag.constructor"
+    qualname = "wrap_make_dag"
+    loops = {}
+
+    def cases(self):
+        return ["normal", "describing-function-raises", "recursion-NameError"]
+
+    def run(self, f, case):
+        class _SD:
+            """StrictDict()"""
+
+            def __init__(self, *a):
+                self.fresh_empty = not a
+
+        class _Node:
+            pass
+
+        node = _Node()
+        node.exec_nodes, node.results, node.DAG_PREFIX = "STALE-TABLE", "STALE-RESULTS", ["stale-prefix"]
+        log = {}
+
+        def make_dag(_func, max_concurrency, is_async):
+            log["at_call"] = (node.exec_nodes, node.results, node.DAG_PREFIX, _func, max_concurrency, is_async)
+            # the description fills the tables it was given
+            if case == "describing-function-raises":
+                raise ValueError("describing function failed")
+            if case == "recursion-NameError":
+                raise NameError("name 'FUNC' is not defined")
+            return "THE_DAG"
+
+        class _Fn:
+            __name__ = "FUNC"
+
+        class _W:
+            @staticmethod
+            def warn(*a, **k):
+                log["warned"] = True
+
+        fn = _Fn()
+        f.__globals__.update({"node": node, "StrictDict": _SD, "make_dag": make_dag, "warnings": _W})
+        n = "wrap_make_dag"
+        raised = None
+        try:
+            r = f(fn, 3, True)
+        except (ValueError, NameError) as e:
+            raised, r = e, None
+        a = log.get("at_call")
+        ok_call = a is not None and isinstance(a[0], _SD) and a[0].fresh_empty and isinstance(a[1], _SD) and a[1].fresh_empty and a[0] is not a[1] and a[2] == [] and a[3] is fn and a[4] == 3 and a[5] is True
+        C.check(z3.BoolVal(bool(ok_call)), f"{n}.post.C15.description_starts_from_fresh_empty_tables_and_no_prefix", {"C15", "C16", "C20"}, "post")
+        ok_after = isinstance(node.exec_nodes, _SD) and node.exec_nodes.fresh_empty and isinstance(node.results, _SD) and node.results.fresh_empty and node.DAG_PREFIX == []
+        C.check(z3.BoolVal(bool(ok_after)), f"{n}.post.C16.build_globals_reset_on_every_exit_path", {"C16", "C15"}, "post")
+        not_shared = a is not None and node.exec_nodes is not a[0] and node.results is not a[1] and node.DAG_PREFIX is not a[2]
+        C.check(z3.BoolVal(bool(not_shared)), f"{n}.post.C15.the_dag_keeps_its_tables_the_globals_get_new_ones", {"C15", "C16"}, "post")
+        if case == "normal":
+            C.check(z3.BoolVal(r == "THE_DAG" and raised is None), f"{n}.post.returns_the_built_dag", {"C01"}, "post")
+        else:
+            C.check(z3.BoolVal(raised is not None), f"{n}.exceptional.C14.the_error_of_the_description_propagates", {"C14"}, "post")
+        return "return" if raised is None else f"raises {type(raised).__name__}"
